@@ -1,4 +1,6 @@
 """C14 - a file on disk, its URI and its note key always name the same note."""
+import re
+
 from vlib import factbase as fb
 from vlib import q
 from .common import pname, ctx, loc
@@ -265,7 +267,71 @@ def rule_r5(facts, rep, rid="C14-R5"):
     rep.ok(rid, "last-dot-extension-api|inventory", "%d use(s) of path-extension APIs in the workspace" % n, None, nontrivial=False)
 
 
+FOLDERS = {"eq_ignore_ascii_case", "to_lowercase", "to_ascii_lowercase", "to_uppercase", "to_ascii_uppercase", "make_ascii_lowercase", "make_ascii_uppercase"}
+RESOLVERS = {"canonicalize", "read_link", "absolute"}
+
+
+def rule_r6(facts, rep, rid="C14-R6"):
+    """The three name conversions (loader, Key::from_file_name / to_path, BasePath) treat a name literally: no case folding, no path resolution on one side only,
+    and the writer appends `.md` unconditionally."""
+    scope = []
+    for f in facts.body_fns():
+        if f.kind == "closure" or "::tests::" in f.def_ or "::test::" in f.def_:
+            continue
+        # inherent Key fns and its From/Display impls in liwe; the editor-side KeyExt trait (completion labels, filter text) is not a name conversion
+        if f.def_.startswith("liwe::fs::") or ((f.impl_self or "").endswith("model::Key") and f.crate == "liwe") or (f.impl_self or "").endswith("server::BasePath"):
+            scope.append(f)
+    rep.floor(rid, "fns of the name conversions (liwe::fs, Key, BasePath)", len(scope), 15)
+    n = 0
+    for f in scope:
+        rep.saw_fn(f)
+        counts = {}
+        for x in fb.walk(f.body):
+            if x.get("k") in ("mcall", "call"):
+                nm = x.get("name") or fb.last_seg(fb.callee(x) or "")
+                if nm in FOLDERS or nm in RESOLVERS:
+                    i = counts.get(nm, 0)
+                    counts[nm] = i + 1
+                    n += 1
+                    key = "%s|%s|%d" % (f.def_, nm, i)
+                    if nm in FOLDERS:
+                        rep.violation(rid, key, "`%s` in %s compares / rewrites a file or note name case-insensitively while the other conversions are literal: `README.MD` is picked up by one "
+                                      "side and not recognised by the other, so it is written back under another name (`README.MD.md`)" % (nm, f.def_), loc(f, x))
+                    else:
+                        rep.violation(rid, key, "`%s` in %s resolves links / `..` on one side of the path comparison only: for a library reached through a symlink the editor's URIs no longer "
+                                      "match the library directory and keys are cut out of the raw URI instead" % (nm, f.def_), loc(f, x))
+    rep.ok(rid, "name-conversions|case-folding-and-resolution-inventory", "%d case-folding / path-resolving call(s) in the name conversions" % n, None, nontrivial=False)
+    # writer: `.md` is appended unconditionally
+    for nm in ("liwe::fs::write_file", "Key::to_path"):
+        f = facts.fn(nm)
+        key = f.def_ + "|suffix-appended-unconditionally"
+        tests = [x for x in fb.walk(f.body) if (x.get("k") == "mcall" and x["name"] in ("ends_with", "starts_with", "contains", "strip_suffix", "strip_prefix", "rsplit_once", "extension")) or
+                 (x.get("k") == "if" and x["c"].get("k") != "letx")]
+        if tests:
+            rep.violation(rid, key, "%s decides by looking at the key (`%s`) whether to append `.md`: a note whose key itself ends in `.md` (file `x.md.md`) is written to `x.md`, the path of "
+                          "another note" % (fb.last_seg(nm), fb.show(tests[0].get("c") or tests[0])[:60]), loc(f, tests[0]))
+        else:
+            rep.ok(rid, key, "format!(\"{}.md\", key) with no test on the key", f.loc)
+    # loader: the extension test is the exact literal `md`
+    nf = facts.fn("liwe::fs::new_for_path_rec")
+    ext = [x for x in fb.walk(nf.body) if x.get("k") == "mcall" and x["name"] == "extension"]
+    key = nf.def_ + "|extension-test-is-literal-md"
+    okx = False
+    for e in ext:
+        from .common import ctx as _c, chain_up
+        ups = chain_up(_c(nf), e)
+        t = fb.show(ups[0])[:200] if ups else ""
+        if re.search(r'\.eq\("md"\)|=="md"|== "md"', t.replace(" ", "").replace('=="md"', '=="md"')) or '.eq("md")' in t:
+            okx = True
+    if okx:
+        rep.ok(rid, key, "extension().map_or(false, |ex| ex.eq(\"md\"))", nf.loc)
+    else:
+        rep.violation(rid, key, "the loader's extension test is not the exact comparison with `md`", nf.loc)
+
+
 def run(facts, rep, tier):
+    rep.rule("C14-R6", "The name conversions are literal and symmetric: no case folding and no one-sided path resolution (canonicalize) in liwe::fs / Key / BasePath, the writer appends `.md` "
+             "without looking at the key, the loader's extension test is the exact literal.")
     rep.rule("C14-R5", "Note names may contain dots: no std::path / relative_path `extension = text after the last dot` API (with_extension, set_extension, file_stem, ...) is applied to "
              "note names, keys or urls, except the audited query in the directory scan.")
     rep.rule("C14-R4", "Unit discipline inside BasePath: every url -> path conversion decodes through Url::to_file_path; raw (percent-encoded) views of a url are confined to the audited fallback.")
@@ -280,3 +346,4 @@ def run(facts, rep, tier):
     rule_r3(facts, rep)
     rule_r4(facts, rep)
     rule_r5(facts, rep)
+    rule_r6(facts, rep)
